@@ -34,6 +34,7 @@ type Opts struct {
 	Deadline time.Time
 	MaxExec  int
 	States   map[uint64]struct{} // optional shared set for state counting
+	NoRepro  bool                // do not require a violation to reproduce on the traced re-run (race reports are deduplicated by the detector)
 	MaxState int
 }
 
@@ -142,7 +143,7 @@ func Explore(cfg Config, o Opts, body func(), check func(r *Result) Verdict) *St
 				tc.KeepTrace = true
 				tr := Run(ch, tc, body)
 				v2 := check(tr)
-				if v2.Violation != v.Violation || v2.Key != v.Key {
+				if !o.NoRepro && (v2.Violation != v.Violation || v2.Key != v.Key) {
 					st.Diverged = fmt.Sprintf("violation did not reproduce on replay: first %q, then %q", v.Violation, v2.Violation)
 					st.Complete = false
 					stop = true
